@@ -2,6 +2,7 @@ package quartz
 
 import (
 	"fmt"
+	"math"
 	"time"
 )
 
@@ -31,8 +32,17 @@ func NewSimpleTrigger(interval time.Duration) *SimpleTrigger {
 
 // NextFireTime returns the next time at which the SimpleTrigger is scheduled to fire.
 func (st *SimpleTrigger) NextFireTime(prev int64) (int64, error) {
-	next := prev + st.Interval.Nanoseconds()
-	return next, nil
+	return addNanos(prev, st.Interval), nil
+}
+
+// addNanos returns t + d, saturating at the largest representable time
+// instead of wrapping around to a time in the distant past.
+func addNanos(t int64, d time.Duration) int64 {
+	next := t + d.Nanoseconds()
+	if d > 0 && next < t {
+		return math.MaxInt64
+	}
+	return next
 }
 
 // Description returns the description of the trigger.
@@ -61,9 +71,8 @@ func NewRunOnceTrigger(delay time.Duration) *RunOnceTrigger {
 // Sets expired to true afterwards.
 func (ot *RunOnceTrigger) NextFireTime(prev int64) (int64, error) {
 	if !ot.Expired {
-		next := prev + ot.Delay.Nanoseconds()
 		ot.Expired = true
-		return next, nil
+		return addNanos(prev, ot.Delay), nil
 	}
 
 	return 0, ErrTriggerExpired
